@@ -415,13 +415,23 @@ func run(c *hl.Ctx) error {
 		// generated programs are kept only when they compile under the default theme without overrides, so that a
 		// failure of a later job is attributable to the theme / override combination
 		var cand []string
-		for i := 0; i < c.Pick(5, 60); i++ {
+		nsrc := c.Pick(5, 60)
+		if c.Search && c.Tier != "thorough" {
+			nsrc = 10
+		}
+		for i := 0; i < nsrc; i++ {
 			cand = append(cand, g.Program(3+r.Intn(8), 2+r.Intn(6)).Source(g))
 		}
 		okc := make([]bool, len(cand))
 		outl.Par(len(cand), func(i int, w *outl.Worker) {
-			_, _, err := w.Compile(cand[i], "dagre", nil)
-			okc[i] = err == nil
+			d, _, err := w.Compile(cand[i], "dagre", nil)
+			if err != nil {
+				return
+			}
+			// must also render in sketch mode under the default theme (rough.js failures on some shapes are not this property's business)
+			t := true
+			out := hl.Guard(func() { _, err = d2svg.Render(d, &d2svg.RenderOpts{Sketch: &t}) })
+			okc[i] = out == "ok" && err == nil
 		})
 		for i, s := range cand {
 			if okc[i] {
@@ -434,6 +444,9 @@ func run(c *hl.Ctx) error {
 	}
 	var jobs []job
 	perTheme := c.Pick(14, 400)
+	if c.Search && c.Tier != "thorough" {
+		perTheme = 40 // an obligation broke in the quick tier: a moderate search budget is enough to hit any colour code
+	}
 	for _, id := range ids {
 		for k := 0; k < perTheme; k++ {
 			j := job{src: srcs[r.Intn(len(srcs))], theme: id, ov: randOverrides(r), dov: map[string]string{}, via: "opts"}
